@@ -191,8 +191,10 @@ class OPEnv(RL4COEnvBase):
             | (sorted_actions[:, 1:] > sorted_actions[:, :-1])
         ).all(), "Duplicates"
 
-        # Gather locations in order of tour and get the length of tours
-        locs_ordered = gather_by_index(td["locs"], actions)
+        # Gather locations in order of tour (starting and ending at the depot) and get the length of tours
+        locs_ordered = torch.cat(
+            [td["locs"][..., 0:1, :], gather_by_index(td["locs"], actions)], dim=1
+        )
         length = get_tour_length(locs_ordered)
 
         max_length = td["max_length"]
